@@ -385,7 +385,9 @@ def generate():
         D("SD_OFFSET_HOUR_MAX", "N", g_n(int(m.group(1))), what); D("SD_OFFSET_MINUTE_MAX", "N", g_n(int(m.group(2))), what)
     else:
         D("SD_OFFSET_HOUR_MAX", "N", g_n(99), what); D("SD_OFFSET_MINUTE_MAX", "N", g_n(99), what)
-    need(r"if i < 9 \{\s*let p = 10_u32\.pow\(8 - i as u32\);", fb, "from_str fraction scaling")
+    m = need(r"if i (<=?) (\d+) \{\s*let p = 10_u32\.pow\((\d+) - i as u32\);", fb, "from_str fraction scaling")
+    D("SD_FRAC_DIGITS", "nat", str(int(m.group(2)) + (1 if m.group(1) == "<=" else 0)), what)
+    D("SD_FRAC_TOP_EXP", "nat", m.group(3), what)
     need(r"if chars\.clone\(\)\.nth\(2\) == Some\(':'\)", fb, "from_str time-only test")
     need(r"next == Some\('T'\) \|\| next == Some\('t'\) \|\| next == Some\(' '\)", fb, "from_str delimiter test")
     need(r"next == Some\('Z'\) \|\| next == Some\('z'\)", fb, "from_str Z test")
